@@ -112,7 +112,11 @@ func (in *Interp) runtimePanic(th *Thread, msg string) {
 }
 
 func (in *Interp) startPanic(th *Thread, v Value, site string) {
-	th.panicV = &PanicState{val: v, site: site}
+	save := in.cur
+	in.cur = th
+	tr := in.stackTrace()
+	in.cur = save
+	th.panicV = &PanicState{val: v, site: site, trace: tr}
 	in.unwind(th)
 }
 
